@@ -10,7 +10,8 @@ THEOREMS = ["C08_lookup", "C08_lookup_unique", "C08_isolated_symbol", "C08_isola
             "C08_replay", "C08_replay_initial", "C08_pass_moves",
             "C08_noninterference", "C08_noninterference_labels", "C08_zderived", "C08_renaming",
             "C08_noninterference_program", "C08_renaming_program_partial",
-            "C08_passes_code_blind", "C08_noninterference_program_full", "C08_renaming_program"]
+            "C08_passes_code_blind", "C08_noninterference_program_full", "C08_renaming_program",
+            "C08_export_before_and_after", "C08_emission_keeps_symbols"]
 RULE = ("generated nestings of blocks, named scopes, macro applications and loops with backward/forward/shadowing/"
         "sibling-reuse placements, plus the full shadowing matrix (outer definition x container x inner definition x reference form, width-inferred operands included); metamorphic twins: consistent renaming of a label, insertion of an unrelated definition "
         "inside another scope (output must not change); out-of-scope references (must be rejected); references to "
@@ -142,6 +143,25 @@ def cases(ctx):
         out.append({"kind": "scope-in-macro-twice", "rom": rom, "spec": {"t": "twin", "labels": False},
                     "src": f"*={org:#08x}\n.macro zz_sm(v) {{\n.scope item {{\nfirst:\n.db v\n}}\n.dl item.first\n}}\nzz_sm(1)\nnop\nzz_sm(2)\n",
                     "twin_src": f"*={org:#08x}\n{{\n.scope item {{\nfirst:\n.db 1\n}}\n.dl item.first\n}}\nnop\n{{\n.scope item2 {{\nfirst:\n.db 2\n}}\n.dl item2.first\n}}\n"})
+        # export of every kind of name, referenced before and after the scope by every kind of reference whose
+        # evaluation time allows it (emission: data / operands; symbol pass: `=`); twin = the value written out
+        scope_body = "nop\nlab:\n.db 1\nksym := 0x1234\nesym = 0x4321\n"
+        for name, val in (("lab", None), ("ksym", 0x1234), ("esym", 0x4321)):
+            for ref in (".dl sc.NAME", "lda.l sc.NAME", ".dw sc.NAME & 0xFFFF", "zz_y = sc.NAME\n.dl zz_y"):
+                for before in (True, False):
+                    if before and ref.startswith("zz_y") and name == "esym":
+                        continue       # an `=` symbol of a later scope is not exported yet when an earlier `=` is evaluated
+                    r1 = ref.replace("NAME", name)
+                    body = f".scope sc {{\n{scope_body}}}\n"
+                    src = f"*={org:#08x}\n" + (r1 + "\n" + body if before else body + r1 + "\n")
+                    if val is None:
+                        out.append({"kind": f"export-any:{name}:{before}", "rom": rom, "src": src,
+                                    "spec": {"t": "export", "name": "lab"} if ref == ".dl sc.NAME" and not before else {"t": "none"}})
+                    else:
+                        r2 = ref.replace("sc.NAME", f"{val:#x}")
+                        twin = f"*={org:#08x}\n" + (r2 + "\n" + body if before else body + r2 + "\n")
+                        out.append({"kind": f"export-any:{name}:{before}", "rom": rom, "src": src, "twin_src": twin,
+                                    "spec": {"t": "twin", "labels": True}})
         # export: scope.name equals the label, referenced before and after the scope
         for before in (True, False):
             for inner in ("lab:\nnop\n", "nop\nnop\nlab:\nrts\n", ".db 1,2,3\nlab:\n"):
